@@ -1929,10 +1929,14 @@ impl<'de, 'e> de::Deserializer<'de> for YamlDeserializer<'de, 'e> {
             #[cfg(any(feature = "garde", feature = "validator"))]
             idx: 0,
         })?;
-        if let Some(Ev::SeqEnd { .. }) = self.ev.peek()? {
-            let _ = self.ev.next()?;
+        // The visitor of a fixed-arity target (tuple, array, tuple struct) stops after its
+        // last position without draining the sequence: surplus elements must be an error, not
+        // be left in the stream for a neighbouring position (or the next document) to pick up.
+        match self.ev.next()? {
+            Some(Ev::SeqEnd { .. }) => Ok(result),
+            Some(other) => Err(Error::unexpected("sequence end").with_location(other.location())),
+            None => Err(Error::eof().with_location(self.ev.last_location())),
         }
-        Ok(result)
     }
 
     /// Deserialize a tuple; identical mechanics to sequences (fixed length checked by caller).
